@@ -2994,3 +2994,130 @@ func TestGovcReplay(t *testing.T) {
 		},
 	}}, harnesses...)
 }
+
+func init() {
+	harnesses = append([]*harness{{
+		name:      "listener update replay (real connection handler: idle timeout made live vs recorded configuration)",
+		modelFree: true,
+		match: func(o *Obligation) bool {
+			return strings.HasSuffix(o.Func, "server.(*connHandler).AddOrUpdateListener") && strings.Contains(o.Name, "idleTimeoutDescribed")
+		},
+		run: func(eng *Engine, o *Obligation) *ReplayOutcome {
+			src := `package server
+
+import (
+	"fmt"
+	"net"
+	"testing"
+	"time"
+
+	"mosn.io/api"
+	v2 "mosn.io/mosn/pkg/config/v2"
+)
+
+func govcListener(idle *api.DurationConfig) *v2.Listener {
+	addr, _ := net.ResolveTCPAddr("tcp", "127.0.0.1:18079")
+	return &v2.Listener{
+		ListenerConfig: v2.ListenerConfig{
+			Name:                  "govc_listener",
+			BindToPort:            true,
+			FilterChains:          []v2.FilterChain{{FilterChainConfig: v2.FilterChainConfig{Filters: []v2.Filter{{Type: "mock_network"}}}}},
+			ConnectionIdleTimeout: idle,
+		},
+		Addr:                    addr,
+		PerConnBufferLimitBytes: 1 << 15,
+	}
+}
+
+// The failed obligation says: the configuration recorded for an updated listener does not describe the idle timeout
+// that was made live. Replay on a real connection handler (listeners are not started): add a listener without an idle
+// timeout, update it with connection_idle_timeout = 30s, compare the live value with the recorded configuration.
+func TestGovcReplay(t *testing.T) {
+	handler := NewHandler(&mockClusterManagerFilter{}, &mockClusterManager{}).(*connHandler)
+	if _, err := handler.AddOrUpdateListener(govcListener(nil)); err != nil {
+		fmt.Println("REPLAY-INCONCLUSIVE add:", err)
+		return
+	}
+	if _, err := handler.AddOrUpdateListener(govcListener(&api.DurationConfig{Duration: 30 * time.Second})); err != nil {
+		fmt.Println("REPLAY-INCONCLUSIVE update:", err)
+		return
+	}
+	al := handler.findActiveListenerByName("govc_listener")
+	live := al.idleTimeout
+	stored := al.listener.Config().ConnectionIdleTimeout
+	if live == nil || stored == nil || live.Duration != stored.Duration {
+		fmt.Printf("REPLAY-CONFIRMED after the update the listener closes idle connections after %v, the recorded (dumped) configuration says %v: a restart from the dump serves a different idle timeout\n", live, stored)
+		return
+	}
+	fmt.Println("REPLAY-NOT-REPRODUCED recorded configuration and live idle timeout agree:", stored.Duration)
+}
+`
+			out, _ := runOverlayTest("pkg/server", src, "^TestGovcReplay$")
+			return outcomeFromOutput(src, out)
+		},
+	}}, harnesses...)
+}
+
+func init() {
+	harnesses = append([]*harness{{
+		name:      "listener removal replay (real connection handler: add, remove, look at the configuration dump)",
+		modelFree: true,
+		match: func(o *Obligation) bool {
+			return strings.HasSuffix(o.Func, "server.(*connHandler).RemoveListeners") || strings.HasSuffix(o.Func, "configmanager.SetRemoveListenerConfig")
+		},
+		run: func(eng *Engine, o *Obligation) *ReplayOutcome {
+			src := `package server
+
+import (
+	"fmt"
+	"net"
+	"testing"
+
+	"mosn.io/api"
+	v2 "mosn.io/mosn/pkg/config/v2"
+	"mosn.io/mosn/pkg/configmanager"
+)
+
+func govcListener(idle *api.DurationConfig) *v2.Listener {
+	addr, _ := net.ResolveTCPAddr("tcp", "127.0.0.1:18079")
+	return &v2.Listener{
+		ListenerConfig: v2.ListenerConfig{
+			Name:                  "govc_listener",
+			BindToPort:            true,
+			FilterChains:          []v2.FilterChain{{FilterChainConfig: v2.FilterChainConfig{Filters: []v2.Filter{{Type: "mock_network"}}}}},
+			ConnectionIdleTimeout: idle,
+		},
+		Addr:                    addr,
+		PerConnBufferLimitBytes: 1 << 15,
+	}
+}
+
+// The failed obligation says: removing a listener does not remove its stored configuration. Replay on a real
+// connection handler: add a listener, remove it, look at the configuration dump.
+func TestGovcReplay(t *testing.T) {
+	configmanager.Reset()
+	handler := NewHandler(&mockClusterManagerFilter{}, &mockClusterManager{}).(*connHandler)
+	if _, err := handler.AddOrUpdateListener(govcListener(nil)); err != nil {
+		fmt.Println("REPLAY-INCONCLUSIVE add:", err)
+		return
+	}
+	handler.RemoveListeners("govc_listener")
+	live := handler.findActiveListenerByName("govc_listener") != nil
+	var dumped bool
+	configmanager.HandleMOSNConfig(configmanager.CfgTypeListener, func(v interface{}) {
+		if m, ok := v.(map[string]v2.Listener); ok {
+			_, dumped = m["govc_listener"]
+		}
+	})
+	if !live && dumped {
+		fmt.Println("REPLAY-CONFIRMED the listener is removed from the handler but its configuration is still in the stored (dumped) configuration: a restart from the dump brings it back")
+		return
+	}
+	fmt.Printf("REPLAY-NOT-REPRODUCED live=%v dumped=%v\n", live, dumped)
+}
+`
+			out, _ := runOverlayTest("pkg/server", src, "^TestGovcReplay$")
+			return outcomeFromOutput(src, out)
+		},
+	}}, harnesses...)
+}
